@@ -30,6 +30,84 @@ pub fn call(name: &str, args: &[String]) -> Value {
             Ok(p) => json!({"ok": p.is_match(&args[1])}),
             Err(e) => json!({"err": format!("{e:?}")}),
         },
+        "timestamp_format" => {
+            // args: unix_seconds offset_seconds fmt(datetime|httpdate|epoch) [nanos]
+            let secs: i64 = args[0].parse().unwrap();
+            let off: i32 = args[1].parse().unwrap();
+            let nanos: i64 = args.get(3).map(|x| x.parse().unwrap()).unwrap_or(0);
+            let t = time::OffsetDateTime::from_unix_timestamp_nanos(i128::from(secs) * 1_000_000_000 + i128::from(nanos)).unwrap()
+                .to_offset(time::UtcOffset::from_whole_seconds(off).unwrap());
+            let ts = s3s::dto::Timestamp::from(t);
+            let fmt = match args[2].as_str() {
+                "datetime" => s3s::dto::TimestampFormat::DateTime,
+                "httpdate" => s3s::dto::TimestampFormat::HttpDate,
+                _ => s3s::dto::TimestampFormat::EpochSeconds,
+            };
+            let mut buf = Vec::new();
+            match ts.format(fmt, &mut buf) {
+                Ok(()) => {
+                    let text = String::from_utf8_lossy(&buf).to_string();
+                    let back = s3s::dto::Timestamp::parse(fmt, &text).ok().map(|b| time::OffsetDateTime::from(b).unix_timestamp_nanos().to_string());
+                    json!({"ok": text, "reparsed_unix_nanos": back})
+                }
+                Err(e) => json!({"err": format!("{e:?}")}),
+            }
+        }
+        "timestamp_sweep" => {
+            // native sweep used as witness validation: every millisecond of one second x offsets x 3 formats:
+            // parse(format(t)) must be the same instant (to the format's precision) and the text must denote UTC
+            let base: i64 = args[0].parse().unwrap();
+            let offsets = [-86340, -3600, 0, 3600, 19800, 86340];
+            let mut bad = vec![];
+            let mut n = 0u64;
+            for ms in 0..1000i64 {
+                for off in offsets {
+                    for (fi, fmt) in [s3s::dto::TimestampFormat::DateTime, s3s::dto::TimestampFormat::HttpDate, s3s::dto::TimestampFormat::EpochSeconds].into_iter().enumerate() {
+                        let nanos = i128::from(base) * 1_000_000_000 + i128::from(ms) * 1_000_000;
+                        let t = time::OffsetDateTime::from_unix_timestamp_nanos(nanos).unwrap().to_offset(time::UtcOffset::from_whole_seconds(off).unwrap());
+                        let ts = s3s::dto::Timestamp::from(t);
+                        let mut buf = Vec::new();
+                        n += 1;
+                        if ts.format(fmt, &mut buf).is_err() {
+                            bad.push(json!({"ms": ms, "off": off, "fmt": fi, "why": "format error"}));
+                            continue;
+                        }
+                        let text = String::from_utf8_lossy(&buf).to_string();
+                        let want = if fi == 1 { nanos - i128::from(ms) * 1_000_000 } else { nanos };
+                        match s3s::dto::Timestamp::parse(fmt, &text) {
+                            Ok(b) => {
+                                let got = time::OffsetDateTime::from(b).unix_timestamp_nanos();
+                                if got != want && bad.len() < 8 {
+                                    bad.push(json!({"ms": ms, "off": off, "fmt": fi, "text": text, "got": got.to_string(), "want": want.to_string()}));
+                                }
+                            }
+                            Err(e) => {
+                                if bad.len() < 8 {
+                                    bad.push(json!({"ms": ms, "off": off, "fmt": fi, "text": text, "why": format!("{e:?}")}));
+                                }
+                            }
+                        }
+                    }
+                }
+            }
+            json!({"evaluations": n, "bad": bad})
+        }
+        "timestamp_parse" => {
+            let fmt = match args[0].as_str() {
+                "datetime" => s3s::dto::TimestampFormat::DateTime,
+                "httpdate" => s3s::dto::TimestampFormat::HttpDate,
+                _ => s3s::dto::TimestampFormat::EpochSeconds,
+            };
+            match s3s::dto::Timestamp::parse(fmt, &args[1]) {
+                Ok(t) => json!({"ok": time::OffsetDateTime::from(t).unix_timestamp_nanos().to_string()}),
+                Err(e) => json!({"err": format!("{e:?}")}),
+            }
+        }
+        "copy_source_parse" => match s3s::dto::CopySource::parse(&args[0]) {
+            Ok(s3s::dto::CopySource::Bucket { bucket, key, version_id }) => json!({"ok": {"bucket": &*bucket, "key": &*key, "version_id": version_id.as_deref()}}),
+            Ok(_) => json!({"ok": "access-point"}),
+            Err(e) => json!({"err": format!("{e:?}")}),
+        },
         "error_status" => {
             let c = s3s::S3ErrorCode::from_bytes(args[0].as_bytes());
             json!({"known": c.is_some(), "status": c.and_then(|c| c.status_code()).map(|s| s.as_u16())})
